@@ -1322,11 +1322,14 @@ def _unpacks_of(fi: FunctionInfo, m: str) -> list[Unpack]:
     return out
 
 
-def _counts_under(cfg, lens: dict[str, int], unpacks: list, n: int, weight) -> set[int]:
-    """Event counts (saturating at 2) over the ENTRY->EXIT paths feasible when the match list has n entries."""
+def _counts_under(cfg, lens: dict[str, int], unpacks: list, n: int, weight, blocked=frozenset()) -> set[int]:
+    """Event counts (saturating at 2) over the ENTRY->EXIT paths feasible when the match list has n entries.
+    ``blocked``: CFG nodes that are not entered (handlers of the outcome class "destination cannot be parsed")."""
     raising = {u.stmt for u in unpacks if u.raises(n)}
     succ = {}
     for node, ss in cfg.succ.items():
+        if blocked:
+            ss = [x for x in ss if x not in blocked]
         if isinstance(node, ast.If):
             v = _ev_len(node.test, lens, n)
             if v is True:
@@ -1800,10 +1803,40 @@ def r4_link_paths(corpus: Corpus, rep: Report, tier: str):
         top = max([2, *consts, *[u.fixed for u in unpacks]]) + 1
         expect = {0: (1 if has_missing else 0, 0, 0), 1: (0, 0, 1)}
         label = {0: "no match", 1: "exactly one match"}
+        # outcome class "the link destination cannot be parsed": the handler(s) of a try around the href parse.
+        # No lookup happens there, so the match-count obligations below hold for the paths on which the parse succeeded;
+        # the handler path itself must end normally with exactly one warning, no reference and no lookup.
+        parse_tries = [t for t in fi.local_nodes() if isinstance(t, ast.Try) and any(isinstance(c, ast.Call) and fi.module.resolve(dotted(c.func) or "") in ("urllib.parse.urlparse", "urllib.parse.urlsplit") for b in t.body for c in ast.walk(b))]
+        parse_handlers = frozenset(("H", h) for t in parse_tries for h in t.handlers)
+        lookups = [c for c in fi.local_nodes() if isinstance(c, ast.Call) and (dotted(c.func) or "").rsplit(".", 1)[-1] in ("get_inventory_matches", "filter_inventories", "filter_sphinx_inventories")]
+        for t in parse_tries:
+            if t.finalbody:
+                raise Unsupported(f"{fi.qualname}: try/finally around the href parse")
+            mstmt = cfg.stmt_of(mdef)
+            if any(x is mstmt for b in t.body for x in ast.walk(b)):
+                raise Unsupported(f"{fi.qualname}: the inventory lookup is inside the try around the href parse")
+            for h in t.handlers:
+                k = f"{fi.fq}|destination cannot be parsed"
+                problems = []
+                warns = cfg.counts(("H", h), [EXIT], weight_of(miss + amb)).get(EXIT)
+                if not warns:
+                    problems.append("the handler of the href parse never reaches the normal exit (it raises): the link aborts the parse instead of being reported")
+                else:
+                    if warns != {1}:
+                        cnt = "/".join({0: "none", 1: "one", 2: "two or more"}[x] for x in sorted(warns))
+                        problems.append(f"when the destination cannot be parsed the paths emit {cnt} inventory-link warning(s), expected exactly one")
+                    if cfg.counts(("H", h), [EXIT], weight_of(lookups)).get(EXIT) != {0}:
+                        problems.append("the handler falls through to the inventory lookup although no href part is bound: the link is resolved with unbound / omitted filters")
+                    if cfg.counts(("H", h), [EXIT], weight_of(refs)).get(EXIT) != {0}:
+                        problems.append("a reference node is built although the destination could not be parsed")
+                if problems:
+                    rep.violation("C19.R4", k, fi.module.site(h), "; ".join(problems))
+                else:
+                    rep.ok("C19.R4", k, fi.module.site(h), "one warning, no lookup, no reference")
         results: dict[str, list[str]] = {"no match": [], "exactly one match": [], "several matches": []}
         for n in range(0, top + 1):
             want = expect.get(n, (0, 1, 1))
-            got = tuple(_counts_under(cfg, lens, unpacks, n, weight_of(ev)) for ev in (miss, amb, refs))
+            got = tuple(_counts_under(cfg, lens, unpacks, n, weight_of(ev), parse_handlers) for ev in (miss, amb, refs))
             lab = label.get(n, "several matches")
             shown = f"{n}+" if n == top else str(n)
             if not got[2]:
@@ -1867,7 +1900,7 @@ def r4_link_paths(corpus: Corpus, rep: Report, tier: str):
             rep.ok("C19.R4", k, fi.module.site(uris[0]), unparse(uris[0])[:100])
         else:
             rep.violation("C19.R4", k, fi.module.site(uris[0]), verdict)
-    rep.expect_min("C19.R4", 26, "13 pass-through keywords + 2 x (order, 3 count classes, first match, refuri)")
+    rep.expect_min("C19.R4", 27, "13 pass-through keywords + 2 x (order, 3 count classes, first match, refuri)")
 
 
 def _refuri_verdict(e: ast.expr, mv: str, rk: str) -> str | None:
@@ -2027,6 +2060,17 @@ def mutants(corpus: Corpus):
         add("c19-href-parts-behind-length-guard", "C19.R4", base, wp, f"if len({pv}) > 2:\n{ind}" + f"\n{ind}".join(ast.get_source_segment(base.src, b) for b in wp.body), "inv: path with 2 part")
     else:
         out.append(("c19-href-parts-merged-into-one-assignment", "the `with suppress(IndexError)` block of three part assignments was not found"))
+    # class "the destination cannot be parsed" (aab162b): handler of the try around urlparse
+    pt = find_node(rl, lambda n: isinstance(n, ast.Try) and "urlparse" in unparse(n.body[0]) and n.handlers)
+    if pt is not None:
+        h = pt.handlers[0]
+        hret = [b for b in h.body if isinstance(b, ast.Return)]
+        hwarn = [b for b in h.body if isinstance(b, ast.Expr) and "IREF_MISSING" in unparse(b)]
+        add("c19-unparsable-href-handler-falls-through", "C19.R4", base, hret[0] if hret else None, "pass", "destination cannot be parsed")
+        add("c19-unparsable-href-handler-reraises", "C19.R4", base, hret[0] if hret else None, "raise", "destination cannot be parsed")
+        add("c19-unparsable-href-warning-dropped", "C19.R4", base, hwarn[0] if hwarn else None, "pass", "destination cannot be parsed")
+    else:
+        out.append(("c19-unparsable-href-handler-falls-through", "no try around the href parse on this tree"))
     # class "the loaded inventory's base URL is not the configuration entry's"
     gm = base.func("DocutilsRenderer.get_inventory_matches")
     fc = find_node(gm, lambda n: isinstance(n, ast.Call) and unparse(n.func).endswith("fetch_inventory"))
